@@ -223,7 +223,40 @@ def r4_3(ctx):
     ctx.end()
 
 
+def r4_4(ctx):
+    """'not absent at the moment of allocation': the FREE fact of R4.1 is only as good as the state it reads -- the per-step
+    absence update must be the last writer of worker/facility state before the allocation phase of the same step."""
+    from ..simstruct import loop_paths, working_of, _closure_effects
+    ctx.begin("R4.4", "the per-step absence update is the last writer of resource state before allocation", floor=1)
+    f, loop = sim_loop(ctx)
+    n = 0
+    for i, p in enumerate(loop_paths(ctx, key="plain")):
+        names = [c for c, _ in p["phases"]]
+        if "allocate" not in names:
+            continue
+        n += 1
+        ai = names.index("allocate")
+        ctx.instance(construct(f, f"loop-path-{i}"), sample={"phases_before_allocation": names[:ai]})
+        if "resource-state" not in names[:ai]:
+            ctx.violation(construct(f, "no-absence-update-before-allocation"), p["phases"][ai][1].loc,
+                          "resources are allocated without their individual absence lists having been applied in this step")
+            continue
+        ri = max(j for j, c in enumerate(names[:ai]) if c == "resource-state")
+        for c, e in p["phases"][ri + 1: ai]:
+            if not isinstance(e, Call):
+                continue
+            for ef in _closure_effects(ctx, e.callees):
+                if ef.kind in ("store", "mut") and ef.attr == "state" and ef.cls in (WORKER, FACILITY, None):
+                    ctx.violation(construct(f, f"state-writer-after-absence-update:{c}"), e.loc,
+                                  f"phase `{c}` runs between the per-step absence update and allocation and can write a {ef.cls or 'resource'}'s state ({ef.loc}): "
+                                  f"a worker who is absent in this step can be made FREE again and be allocated")
+                    break
+    ctx.require(n >= 1, "no loop path with an allocation phase")
+    ctx.end()
+
+
 def run(ctx):
+    r4_4(ctx)
     r4_1(ctx)
     r4_2(ctx)
     r4_3(ctx)
